@@ -10,7 +10,6 @@ from .qc import torch
 from qucumber.utils import cplx, unitaries  # noqa: E402
 
 FILES = ["qucumber/utils/unitaries.py", "qucumber/utils/cplx.py", "qucumber/nn_states/neural_state.py"]
-REQUIRED_THEOREMS = ['C04_rotate_psi', 'C04_rotate_psi_loop', 'C04_rotate_rho', 'C04_rotate_rho_loop', 'C04_rotate_rho_hermitian', 'C04_dense_eq_kronecker', 'C04_inner_prod_dense', 'C04_rho_probs_dense', 'C04_dense_unitary', 'C04_psi_probs_sum', 'C04_rho_probs_nonneg', 'C04_rho_probs_sum', 'C04_dZ', 'C04_dX_unitary', 'C04_dX_eigen', 'C04_dY_unitary', 'C04_dY_eigen']
 RULE = ("case = (n, per-letter dictionary (default X,Y,Z plus user-added random unitaries / Gaussian-integer matrices), basis string, "
         "explicit or model-derived psi / rho, batch of outcome states with repeats); all 3^n strings for n<=3 (quick) / n<=4 (thorough), sampled beyond; "
         "exact tier (Gaussian integers, model over Int, compared exactly) and tolerance tier (default dictionary); "
